@@ -5,7 +5,7 @@ import re
 from cgv import families as F
 from cgv.core import call
 from cgv.eq import prove_equal
-from cgv.net import Net, rename, wellformed
+from cgv.net import Net, mkspec, rename, wellformed
 
 META = {
     "level": "translation_validation",
@@ -27,6 +27,15 @@ def all_cases(ctx):
     base = F.f_unit(4) + F.f_shape() + F.f_bb() + F.f_rand(ctx.seed, 30 if ctx.quick else 300)
     cs = [(("sub",) + cid, ("spec", s)) for cid, s in base]
     cs += [(("sub", "ioname") + cid, ("spec", rename(s, lambda n: IONAMES.get(n, n)))) for cid, s in F.f_unit(3, pairs=False) + F.f_shape()[:6] + [c for c in F.f_unit(3) if c[0][0] == "pair"][:8]]
+    BUFBOX = ["BUF", ["A"], ["Y"]]
+    ANDBOX = ["And", ["A", "B"], ["Y"]]
+    I = lambda *ns: [(n, "input", []) for n in ns]
+    upper = mkspec("upper_prim_names", I("a", "b") + [("y0", "buf", []), ("y1", "buf", []), ("o", "nand", ["y0", "y1"], True),
+                   ("u0.A", "bb_input", ["a"]), ("u0.Y", "bb_output", []), ("u1.A", "bb_input", ["a"]), ("u1.B", "bb_input", ["b"]), ("u1.Y", "bb_output", [])],
+                   edges=[("u0.Y", "y0"), ("u1.Y", "y1")], bbs={"u0": BUFBOX, "u1": ANDBOX})
+    cs.append((("sub", "upper_prim_names"), ("spec", upper)))
+    ties = {"a": "tie0", "b": "tie1", "i0": "tie0", "i1": "tie1", "s": "tie_0"}
+    cs += [(("sub", "tienames") + cid, ("spec", rename(s, lambda n: ties.get(n, n)))) for cid, s in F.f_shape() + F.f_bb() + [c for c in F.f_rand(ctx.seed + 3, 12, consts=True)]]
     cs += [(("writer",) + cid, ("writer", s)) for cid, s in base[::3]]
     cs += [(("lib", n), ("lib", n)) for n in (["c17", "c17_gates", "s27", "c432"] + ([] if ctx.quick else ["c499", "c880", "c1355"]))]
     return cs
@@ -121,7 +130,10 @@ def canon(net):
     for n, t in net.types.items():
         if t in ("0", "1"):
             m[n] = f"CONST{t}"
-    return rename(net.spec(), lambda n: m.get(n, n))
+    r = rename(net.spec(), lambda n: m.get(n, n))
+    r["nodes"] = sorted(map(list, {tuple(x) for x in r["nodes"]}))
+    r["edges"] = sorted(map(list, {tuple(x) for x in r["edges"]}))
+    return r
 
 
 def restricted_body_ok(text):
